@@ -8,7 +8,13 @@ DRV = 'drv_c06'
 
 REGISTRY = {
     'id': 'C06',
-    'text': 'Lean theorems (all n, all site lists incl. unsorted/duplicated, all mc, min/max length or None; no size bound): '
+    'text': 'Mechanical tie for spans.py: harness/translate_spans.py reads the CURRENT source with ast and emits Generated/SpansPy.lean '
+            '(build_non_enzymatic_spans, build_left_semi_spans, build_right_semi_spans, build_enzymatic_spans, build_semi_spans, '
+            'build_spans); Props/C06Gen proves each equal to the hand model (GenSpans.f = Spans.f), so the theorems below hold for the '
+            'definitions read off the source; hand-modelled only (tied by correspondence): _grouped_left/right_semi_span_builder '
+            '(loop with break and look-ahead), digest, sequential_digest, the regex matcher; a function outside the translator subset '
+            'is reported as untranslated and falls back to correspondence. '
+            'Lean theorems (all n, all site lists incl. unsorted/duplicated, all mc, min/max length or None; no size bound): '
             'mem_/nodup_ for build_non_enzymatic/left_semi/right_semi/enzymatic spans; shortcut_iff_nonSpecific; '
             'mem_buildSpans (build_spans returns exactly the specified set: non-specific, enzymatic and semi-specific case incl. the '
             'grouped semi builders with their sort/groupby/next-shorter-parent de-duplication), nodup_buildSpans, value_is_inside, '
@@ -23,7 +29,8 @@ REGISTRY = {
             'implementation is compared with the Lean set specification through the driver; a call-sequence stage (shared '
             'annotation / reused EnzymeConfig objects, one parameter changed between consecutive calls, returned objects edited, '
             'interleaved generators) checks that no state leaks between calls',
-    'note': 'trusted: Lean kernel, axioms propext/Classical.choice/Quot.sound, the correspondence harness, regex->sites (outside the '
+    'note': 'trusted: Lean kernel, axioms propext/Classical.choice/Quot.sound, the spans.py subset reader translate_spans.py (its output is '
+            'small and diffable), the correspondence harness, regex->sites (outside the '
             'model, compared with an independent reading of each named rule)',
     'technique': 'Lean 4 proof about executable model + differential correspondence',
 }
@@ -93,6 +100,9 @@ def run(chk):
         except core.InfraError:
             pass
     chk.trusted += [
+        'harness/translate_spans.py: the reading of the Python subset (defaults, + - min max, range, enumerate, slices, sorted(set), '
+        'generator expressions, yield) into Lean combinators; translated: %s; hand-modelled: _grouped_left/right_semi_span_builder%s'
+        % (', '.join(gen_done), ''.join(', ' + k for k in gen_unt)),
         'regex -> cleavage sites is outside the Lean model: sites computed by the implementation are fed to the model; '
         'named proteases are compared with an independent Python reading of each rule',
         'modelled: spans.py builders, build_spans, digest and sequential_digest at span level (return_type span, unmodified sequences); '
